@@ -103,6 +103,12 @@ def must_refuse_edits(cfg, iso, shadow):
     if lvl >= 2:
         yield 'identifier-does-not-fit-record', (lambda: iso.add_fp(fp(), 5, iso_path='/' + 'N' * 220 + '.' + 'E' * 30 + ';1', **rr))
     if cfg.joliet:
+        yield 'empty-name:joliet', (lambda: iso.add_directory(joliet_path='/'))
+        yield 'empty-name:joliet', (lambda: iso.add_fp(fp(), 5, joliet_path='/'))
+    if cfg.udf:
+        yield 'empty-name:udf', (lambda: iso.add_directory(udf_path='/'))
+        yield 'empty-name:udf', (lambda: iso.add_fp(fp(), 5, udf_path='/'))
+    if cfg.joliet:
         yield 'joliet-name-too-long', (lambda: iso.add_fp(fp(), 5, joliet_path='/' + 'j' * 65))
         yield 'joliet-name-too-long', (lambda: iso.add_directory(joliet_path='/' + '\U0001F600' * 33))
     if cfg.udf:
